@@ -187,6 +187,14 @@ func main() {
 			if r > 0 && (rng.Intn(3) != 0 || i%6 == 5) {
 				perturb(rng, t)
 			}
+			// peering links come and go between beaconing runs: the same hop sequence is registered with
+			// different sets of peer entries
+			t.PeerOff = map[int]bool{}
+			for li, l := range t.Links {
+				if l.Type == "peer" && runs > 1 && rng.Intn(3) == 0 {
+					t.PeerOff[li] = true
+				}
+			}
 			ts := base.Add(-time.Duration(rng.Intn(7200)) * time.Second)
 			ss, err := t.Run(ts, rng, 5, nil)
 			if err != nil {
